@@ -38,7 +38,7 @@ func init() {
 	Registry["C18"] = &Prop{
 		Plan: func(tier string) Plan {
 			return Plan{Level: "exploration", NCases: c18Matrix + pick(tier, 32, 3000), Batch: 2, CaseTimeout: 180,
-				Rule: "cases 0-27 (role matrix): every request type of both APIs (etcd Txn create/update/delete, Range get/list/count/partitions, Watch from the next revision and from revision 0 (\"from now\"), range-stream watch, Lease; native Create/Update/Delete/Compact/Get/Range/Count/ListPartition/RangeStream/Watch) x {leader, follower} x {proxy on, off} x {leader reachable, unreachable, HTTP 400, HTTP 500, the recorded leader being a real node that is not leading (its real /status handler answers), a 200 answer cut off half-way through its body, a 200 answer whose body is not the revision document}, handlers built over a call-recording Backend, the REAL revision syncer pointed at an httptest leader, a stub election and a recording proxy. " +
+				Rule: "cases 0-35 (role matrix): every request type of both APIs (etcd Txn create/update/delete, Range get/list/count/partitions, Watch from the next revision and from revision 0 (\"from now\"), range-stream watch, Lease; native Create/Update/Delete/Compact/Get/Range/Count/ListPartition/RangeStream/Watch) x {leader, follower} x {proxy on, off} x {leader reachable, unreachable, HTTP 400, HTTP 500, the recorded leader being a real node that is not leading (its real /status handler answers), a 200 answer cut off half-way through its body, a 200 answer whose body is not the revision document, no leader known at all (the lock is held by nobody / the address is blank)}, handlers built over a call-recording Backend, the REAL revision syncer pointed at an httptest leader, a stub election and a recording proxy. " +
 					"oracle: on a follower the backend never sees Create/Update/Delete/Compact/Watch (request rejected Unavailable or handed to the proxy), every backend read is preceded by SetCurrentRevision(v) with v served by the leader during this very request, a failed sync gives an error and no backend read; on the leader writes reach the backend and no sync happens. " +
 					"further cases (two nodes): a leader node and a follower node over one store with the real revision syncer over HTTP; writers on the leader, concurrent readers on the follower; in a third of them the verif hooks hold one reader between fetching and setting the revision while another sits between its own set and its backend read; in another third five readers holding different fetched revisions are released into the set at the same instant (150 rounds). oracle: the follower's response header >= the leader's committed revision sampled before the request began, and the data equals the reference snapshot at the header revision. " +
 					"every 8th further case is a PRODUCTION PAIR: two nodes as cmd/option.Run starts them (pkg/endpoint with multiplexed client and peer ports, server.NewServer, real Campaign, real revision syncer, real etcd proxy when etcd compatibility is on; peer port plain, TLS-only with client certificates, or both on one port) over one store, requests sent to the follower's client port over gRPC: native writes and watches refused, an etcd write either fails and changes nothing or is executed by the leader exactly once, every read the follower answers contains a write that was readable on the leader before, an etcd watch is refused or shows the leader's events. " +
@@ -76,9 +76,9 @@ func init() {
 	}
 }
 
-var c18Modes = []string{"reachable", "unreachable", "http400", "http500", "recorded-leader-is-not-leading", "body-cut-off", "garbage-body"}
+var c18Modes = []string{"reachable", "unreachable", "http400", "http500", "recorded-leader-is-not-leading", "body-cut-off", "garbage-body", "no-leader-known(lock-held-by-nobody)", "no-leader-known(blank-address)"}
 
-const c18Matrix = 28
+const c18Matrix = 36
 
 var c18PeerTLS = []string{"off", "only", "both"}
 
@@ -203,6 +203,14 @@ func runC18Matrix(c *harness.Case) {
 		ts2 := httptest.NewServer(h)
 		defer ts2.Close()
 		addr = strings.TrimPrefix(ts2.URL, "http://")
+	}
+	switch mode {
+	case "no-leader-known(lock-held-by-nobody)":
+		// what the election service reports while the lock names no holder (a fresh cluster, a leader that released
+		// the lock on shutdown): the lock describes itself as "empty,<tso>"
+		addr = "empty"
+	case "no-leader-known(blank-address)":
+		addr = ""
 	}
 	stub := &leader.Stub{ElectionInfo: leader.ElectionInfo{LeaderAddress: addr, IsLeader: isLeader}}
 	ps := &peerSvc{RevisionSyncer: revision.NewRevisionSyncer(rec, n.Metrics, stub, nil), LeaderElection: stub, proxyOn: proxyOn}
